@@ -71,6 +71,8 @@ def _sk(est):
 
 
 CLASSIFIERS["sk_nb"] = (_sk(lambda: GaussianNB(var_smoothing=1e-3)), False, True)
+# default smoothing: zero variance (one labelled sample, coinciding labelled rows) makes GaussianNB return NaN probabilities
+CLASSIFIERS["sk_nb_default"] = (_sk(lambda: GaussianNB()), False, True)
 CLASSIFIERS["sk_lr"] = (_sk(lambda: LogisticRegression(max_iter=200)), False, True)
 CLASSIFIERS["sk_tree"] = (_sk(lambda: DecisionTreeClassifier(random_state=0)), False, True)
 CLASSIFIERS["sk_knn"] = (_sk(lambda: KNeighborsClassifier(n_neighbors=1)), False, True)
